@@ -10,7 +10,7 @@ hooks_commits = meta['hooks']['source_commits']
 for p in props:
     pid = p['id']
     f = '%s/registry/%s.json' % (V, pid)
-    if not os.path.exists(f) or pid in meta.get('withdrawn', {}):
+    if not os.path.exists(f) or pid in meta.get('withdrawn', {}) or pid not in meta.get('claimed', []):
         na.append({'property_id': pid, 'reason': meta.get('withdrawn', {}).get(pid) or meta['not_built_reason']})
         continue
     r = json.load(open(f))
